@@ -9,15 +9,16 @@ THOROUGH_ONLY = {"C19-r3-2"}  # needs the release-profile build, which only the 
 
 
 def sh(cmd, cwd=None, timeout=3000):
-    p = subprocess.run(cmd, cwd=cwd, env=ENV, stdout=subprocess.PIPE, stderr=subprocess.STDOUT, text=True, timeout=timeout)
+    p = subprocess.run(cmd, cwd=cwd, env=ENV, shell=isinstance(cmd, str), stdout=subprocess.PIPE, stderr=subprocess.STDOUT, text=True, timeout=timeout)
     return p.returncode, p.stdout
 
 
 def main():
-    ids = sys.argv[1:] or sorted(os.path.basename(os.path.dirname(f)) for f in glob.glob(os.path.join(ROOT, "seeded", "*", "patch.diff")))
+    md_only = "--md-only" in sys.argv
+    ids = [a for a in sys.argv[1:] if not a.startswith("--")] or sorted(os.path.basename(os.path.dirname(f)) for f in glob.glob(os.path.join(ROOT, "seeded", "*", "patch.diff")))
     out_f = os.path.join(ROOT, "seeded", "REGRESSION.json")
     res = json.load(open(out_f)) if os.path.exists(out_f) else {}
-    for sid in ids:
+    for sid in ([] if md_only else ids):
         d = os.path.join(ROOT, "seeded", sid)
         meta = json.load(open(os.path.join(d, "meta.json")))
         prop = meta["property"]
